@@ -3,7 +3,7 @@
    [lower] (strings.ToLower) are ARBITRARY functions; address equality is any
    decidable equality. *)
 From Verif Require Import Base.GoPrim Base.Strings Std.Bufio Model.Hosts Model.Storage
-  Proofs.BufioProofs Proofs.StorageProofs.
+  Proofs.BufioProofs Proofs.StorageProofs Proofs.StorageEqual.
 
 (* The scanner's tokens do not depend on the fragmentation: for every sequence of
    reader answers (chunks of any size, empty reads, data together with EOF or with
@@ -117,6 +117,31 @@ Theorem C08_nameless_anywhere : forall A aeqb lower recs1 recs2 a,
   storage_run A aeqb lower (recs1 ++ (a, []) :: recs2) = storage_run A aeqb lower (recs1 ++ recs2).
 Proof. exact nameless_noop_run. Qed.
 
+(* DefaultStorage.Equal (two non-nil storages built by any two Add histories): true iff ByAddr gives the
+   same list for every address -- the two map-length comparisons and the one-sided loop of the code
+   decide exactly that -- and then ByName gives the same addresses (as sets: their order is feeding order) *)
+Theorem C08_equal : forall A aeqb lower, (forall x y, aeqb x y = true <-> x = y) ->
+  forall recs1 recs2,
+  (storage_equal A aeqb (storage_run A aeqb lower recs1) (storage_run A aeqb lower recs2) = true) <->
+  (forall a, by_addr A aeqb (storage_run A aeqb lower recs1) a = by_addr A aeqb (storage_run A aeqb lower recs2) a).
+Proof. exact storage_equal_spec. Qed.
+
+Theorem C08_equal_by_name : forall A aeqb lower, (forall x y, aeqb x y = true <-> x = y) ->
+  forall recs1 recs2,
+  storage_equal A aeqb (storage_run A aeqb lower recs1) (storage_run A aeqb lower recs2) = true ->
+  forall h a, In a (by_name A lower (storage_run A aeqb lower recs1) h) <->
+              In a (by_name A lower (storage_run A aeqb lower recs2) h).
+Proof. exact storage_equal_by_name. Qed.
+
+(* Equal does not see the order inside ByName: same ByAddr everywhere, ByName lists reversed *)
+Example C08_equal_example :
+  let s1 := storage_run Z Z.eqb to_lower_ascii [(1, [[120]]); (2, [[88]])] in
+  let s2 := storage_run Z Z.eqb to_lower_ascii [(2, [[88]]); (1, [[120]])] in
+  let s3 := storage_run Z Z.eqb to_lower_ascii [(1, [[120]]); (2, [[120]])] in
+  (storage_equal Z Z.eqb s1 s2 = true) /\ (by_name Z to_lower_ascii s1 [120] = [1; 2]) /\
+  (by_name Z to_lower_ascii s2 [120] = [2; 1]) /\ (storage_equal Z Z.eqb s1 s3 = false).
+Proof. vm_compute. repeat split; reflexivity. Qed.
+
 (* non-vacuity: "1 a\r\n# c\n2 B" delivered as 1-byte reads with empty reads in
    between and a final data+EOF, equals one read of the whole stream *)
 Example C08_example :
@@ -146,3 +171,5 @@ Print Assumptions C08_by_addr_members.
 Print Assumptions C08_agree.
 Print Assumptions C08_nodup.
 Print Assumptions C08_nameless_anywhere.
+Print Assumptions C08_equal.
+Print Assumptions C08_equal_by_name.
